@@ -163,6 +163,14 @@ def c_redirect(p_atom: Atom, target: Atom, op=">"):
                 "redirect")
 
 
+def c_compound_redirect(p: Prog, target: Atom, op=">"):
+    """A compound command (p must be one: group, subshell, if, loop, case) carrying its own redirect."""
+    red = Atom(f"{op} {target.text}", target.cls, "redirect")
+    return Prog(f"{p.text} {red.text}", p.parts + [red], p.shape + "+redirect")
+
+
+COMPOUND_SHAPES = ("subshell", "brace", "if", "if+else", "if+elif", "if+elif+else", "while", "until", "for", "for+cmdsub", "case")
+
 SAFE_OUTERS = ["echo", "cat", "ls"]
 LIST_OPS = [";", "&&", "||", "&", "\n"]
 
@@ -176,7 +184,12 @@ def rand_prog(rng: random.Random, depth: int, cmds, redirs, simple_only=False) -
             return c_redirect(a, rng.choice(redirs), rng.choice([">", ">>", "2>", "&>"]))
         return atom_prog(a)
     sub = lambda: rand_prog(rng, depth - 1, cmds, redirs)
-    k = rng.randrange(15)
+    k = rng.randrange(17)
+    if k >= 15:
+        p = sub()
+        if p.shape in COMPOUND_SHAPES:
+            return c_compound_redirect(p, rng.choice(redirs), rng.choice([">", ">>", "2>", "&>"]))
+        return c_compound_redirect(c_brace(p) if k == 15 else c_subshell(p), rng.choice(redirs), rng.choice([">", ">>"]))
     if k == 0:
         return c_list(rng.choice(LIST_OPS), [sub() for _ in range(rng.randint(2, 4))])
     if k == 1:
@@ -251,6 +264,36 @@ def systematic(cmds_by_cls):
             if n == 3:
                 out.append(c_if(pick(combo[0]), pick(combo[1]), (), pick(combo[2])))
                 out.append(c_if(pick(combo[0]), pick(combo[1]), [(pick(combo[2]), pick(combo[0]))], None))
+    return out
+
+
+def compound_redirects(cmds_by_cls, redir_by_cls):
+    """Every compound shape carrying a redirect of each class, placed at every constituent position of
+    every composition constructor (so that a constructor which forgets a constituent's own redirects
+    shows up)."""
+    out = []
+    i = itertools.count()
+    allow = cmds_by_cls["allow"]
+
+    def a():
+        return atom_prog(allow[next(i) % len(allow)])
+
+    shapes = [lambda: c_brace(a()), lambda: c_subshell(a()), lambda: c_if(a(), a()), lambda: c_if(a(), a(), (), a()),
+              lambda: c_if(a(), a(), [(a(), a())], None), lambda: c_while("while", a(), a()), lambda: c_while("until", a(), a()),
+              lambda: c_for(a()), lambda: c_case([a(), a()])]
+    for cls in ("allow", "ask", "deny"):
+        for mk in shapes:
+            red = redir_by_cls[cls][next(i) % len(redir_by_cls[cls])]
+            def x():
+                return c_compound_redirect(mk(), red)
+            places = [
+                x(), c_list(";", [a(), x()]), c_list("&&", [x(), a()]), c_pipe([x(), a()]), c_pipe([a(), x()]), c_subshell(x()), c_brace(x()),
+                c_not(x()), c_time(x()), c_if(x(), a()), c_if(a(), x()), c_if(a(), a(), (), x()), c_if(a(), a(), [(x(), a())], None),
+                c_if(a(), a(), [(a(), x())], None), c_if(a(), a(), [(a(), a())], x()), c_while("while", x(), a()), c_while("while", a(), x()),
+                c_while("until", a(), x()), c_for(x()), c_for_sub(x(), a()), c_for_sub(a(), x()), c_case([a(), x()]), c_case([x()]),
+                c_function(x(), 0), c_cmdsub_arg("echo", x()), c_procsub_arg("cat", x()),
+            ]
+            out += places
     return out
 
 
